@@ -32,7 +32,7 @@ PROFILES = {
                            gc=5, swap=4, reorder=1, redo=10, probe=6, fork=1),
                 flavors=['raw', 'autoref'], nv=(2, 8), steps=(20, 120), m1_rate=0.15),
     # equal functions arriving by different routes at different times
-    'C02': dict(weights=_w(apply=10, ite=4, eqcheck=8, find_or_add=8, let=4,
+    'C02': dict(weights=_w(apply=10, ite=4, eqcheck=8, find_or_add=8, let=8,
                            quant=2, add_expr=5, to_expr=2, gc=4, swap=4,
                            reorder=1, declare=2, undeclare=1, copy=3, dump=1, load=2,
                            sizes=3, fork=1),
